@@ -272,52 +272,71 @@ def row_tuple(e):
     return ("v", e["id"], e["label"], e["d"]) if e["k"] == "v" else ("e", e["id"], e["label"], e["from"], e["to"], e["d"])
 
 
+PRIORITY = ["DeleteGraph", "AddGraph", "DelVertex", "DelEdge", "AddSchema", "write"]
+
+
+def touched(call):
+    op = call["op"]
+    if op in ("AddGraph", "DeleteGraph"):
+        return None                       # everything in the graph
+    if op in ("DelVertex", "DelEdge"):
+        return {call["id"]}
+    ids = set()
+    for e in call.get("elems", []):
+        ids.add(e["id"])
+        if e["k"] == "e":
+            ids.update((e["from"], e["to"]))
+    return ids
+
+
+def culprit(line, comp, ids=None):
+    """names the kind of edit involved in the overlap: among the edits on this object that overlap in time with another
+    edit on it (and touch the given element ids, if any), the least atomic kind (graph deletion > vertex deletion >
+    edge deletion > plain write).  Only used to name a divergence TLC has established."""
+    calls = [(r, c) for c, recs in enumerate(line["cl"]) for r in recs if comp_of(r["call"]) == comp and r["call"]["op"] in EDITS]
+    if ids is not None:
+        calls = [(r, c) for r, c in calls if touched(r["call"]) is None or touched(r["call"]) & ids]
+    kinds = set()
+    for r, c in calls:
+        for r2, c2 in calls:
+            if c2 != c and r["ti"] < r2["tr"] and r2["ti"] < r["tr"]:
+                kinds.add(OPCLASS[r["call"]["op"]])
+    for k in PRIORITY:
+        if k in kinds:
+            return "concurrent " + k
+    return "no overlapping edit"
+
+
 def name_final_mismatch(line, comp, reachable):
-    """names the shape of a final observation no order explains: the smallest difference from a final state that
-    some order does reach, and the edits that overlap the call which wrote the offending element"""
-    calls = [(r, c) for c, recs in enumerate(line["cl"]) for r in recs if comp_of(r["call"]) == comp]
-
-    def overlapping(r, c):
-        return sorted({OPCLASS[r2["call"]["op"]] for r2, c2 in calls if c2 != c and r2["call"]["op"] in EDITS
-                       and r["ti"] < r2["tr"] and r2["ti"] < r["tr"]})
-
+    """names the shape of a final observation no order explains"""
     if comp == "schemas":
+        calls = [(r, c) for c, recs in enumerate(line["cl"]) for r in recs if comp_of(r["call"]) == comp]
         fs = [s for s in line["final"]["schemas"] if s["g"] == "g1"][0]
         served, stored = {row_tuple(e) for e in fs["served"]}, {row_tuple(e) for e in fs["stored"]}
         alls = [{row_tuple(e) for e in r["call"]["elems"]} for r, c in calls]
         if stored not in alls and any(stored & a for a in alls):
-            return "stored schema graph is not the schema of one AddSchema call (overlapping AddSchema calls)"
+            return "stored schema graph is not the schema of one AddSchema call (%s)" % culprit(line, comp)
         if served != stored:
-            return "served schema differs from the stored schema graph"
-        return "schema of no possible last AddSchema"
+            return "served schema differs from the stored schema graph (%s)" % culprit(line, comp)
+        return "schema of no possible last AddSchema (%s)" % culprit(line, comp)
     if comp == "jobs":
         return "job status"
     obs = [g for g in line["final"]["store"] if g["g"] == comp]
     have = {row_tuple(e) for e in obs[0]["V"] + obs[0]["E"]} if obs else None
     cands = [graph_rows(G) for G in reachable]
     if have is None or all(c is None for c in cands):
-        return "graph existence"
-    best = None
-    for cset in cands:
-        if cset is None:
-            continue
-        diff = (have - cset, cset - have)
-        if best is None or len(diff[0]) + len(diff[1]) < len(best[0]) + len(best[1]):
-            best = diff
-    extra, missing = best
-    shapes = set()
-    for e in sorted(extra, key=str):
-        kind = "stale" if any(m[1] == e[1] and m[0] == e[0] for m in missing) else "extra"
-        writer = [(r, c) for r, c in calls if "elems" in r["call"] and e in {row_tuple(x) for x in r["call"]["elems"]}]
-        ov = overlapping(*writer[0]) if writer else ["?"]
-        shapes.add("%s element of a write overlapping %s" % (kind, "+".join(ov) or "nothing"))
-    for m in sorted(missing, key=str):
-        if any(e[1] == m[1] and e[0] == m[0] for e in extra):
-            continue
-        writer = [(r, c) for r, c in calls if "elems" in r["call"] and m in {row_tuple(x) for x in r["call"]["elems"]}]
-        ov = overlapping(*writer[0]) if writer else ["?"]
-        shapes.add("lost element of a write overlapping %s" % ("+".join(ov) or "nothing"))
-    return "; ".join(sorted(shapes)[:2]) or "difference"
+        return "graph existence (%s)" % culprit(line, comp)
+    # the elements in which the observation differs from the closest final states some order reaches
+    diffs = sorted(((have - c) | (c - have) for c in cands if c is not None), key=len)
+    ids = set()
+    for d in diffs:
+        if len(d) > len(diffs[0]):
+            break
+        for e in d:
+            ids.add(e[1])
+            if e[0] == "e":
+                ids.update((e[3], e[4]))
+    return "no order of the acknowledged edits explains it (%s)" % culprit(line, comp, ids)
 
 
 def diagnose_all(ctx, rejected):
@@ -361,6 +380,10 @@ def plan_of(ctx):
 def run(ctx):
     thorough = ctx.tier != "quick"
     plan, want, want_race = plan_of(ctx)
+    # knobs for self-tests of the check (mutation runs): fewer histories, no exhaustive model run
+    if os.environ.get("VERIF_C17_TRACES"):
+        want = int(os.environ["VERIF_C17_TRACES"])
+        want_race = int(os.environ.get("VERIF_C17_RACE", want // 3))
 
     # build both binaries while TLC works on the model
     build_err = []
@@ -374,7 +397,7 @@ def run(ctx):
 
     bt = threading.Thread(target=build)
     bt.start()
-    mc = model_check(ctx)
+    mc = model_check(ctx) if not os.environ.get("VERIF_C17_NOMC") else None
     sessions = gen_sessions(ctx, plan)
     bt.join()
     if build_err:
@@ -390,7 +413,7 @@ def run(ctx):
     for i, sess in enumerate(sessions):
         reqs.append(dict(i=i, init=["g1"], sessions=sess, procs=[1, 2, 4, 8, 16][i % 5], jitter=[0, 1, 3][(i // 5) % 3],
                          seed=ctx.rng.randrange(1 << 30), fresh=40))
-    race_ids = set(range(0, len(reqs), max(1, len(reqs) // want_race))) if want_race else set()
+    race_ids = {int(k * len(reqs) / want_race) for k in range(want_race)} if want_race else set()
     plain = [r for r in reqs if r["i"] not in race_ids]
     raced = [r for r in reqs if r["i"] in race_ids]
     # the StreamBatch probe (bulk path of the mongo/psql/elastic drivers), race build only
@@ -457,6 +480,26 @@ def run(ctx):
 
     # ---- binding self-test: falsified records must be rejected
     canaries = corrupt(ctx, lines)
+    mode = os.environ.get("VERIF_C17_CORRUPT")
+    if mode:
+        # self-test of the whole path: falsify one field of one REAL record in place; the check has to report it
+        for l in lines:
+            if mode == "final" and any(g["V"] for g in l["final"]["store"]):
+                g = [g for g in l["final"]["store"] if g["V"]][0]
+                ctx.log("CORRUPTED history %s: dropped %s from the observed final %s" % (l["i"], g["V"][0], g["g"]))
+                g["V"] = g["V"][1:]
+                break
+            hit = [r for recs in l["cl"] for r in recs if r["call"]["op"] in ("GetVertex", "Traversal") and r["res"]["res"] == "ok"]
+            if mode == "read" and hit:
+                hit[0]["res"]["elems"] = hit[0]["res"]["elems"] + [dict(k="v", id="a", label="L1", d=424242)]
+                ctx.log("CORRUPTED history %s: %s returns a vertex nobody wrote" % (l["i"], describe(hit[0]["call"])))
+                break
+            hit = [r for recs in l["cl"] for r in recs if r["call"]["op"] == "AddVertex" and r["call"]["g"] == "g2" and r["res"]["res"] == "error"
+                   and not any(x["call"]["op"] == "AddGraph" for rs in l["cl"] for x in rs)]
+            if mode == "ack" and hit:
+                hit[0]["res"]["res"] = "ok"
+                ctx.log("CORRUPTED history %s: %s acknowledged although g2 never exists" % (l["i"], describe(hit[0]["call"])))
+                break
 
     # ---- validation: real-time order first; what it rejects is tried again with the order the property asks for
     accepted, nonlin, rejected_rt = validate_all(ctx, lines, canaries)
@@ -481,9 +524,10 @@ def run(ctx):
             if m and m[0]["obs"] and g in real:
                 asp = [a for a in storecmp.cmp_graph(m[0]["obs"][0], real[g]) if a not in ("vlabels", "elabels", "label-index")]
                 if asp:
-                    ctx.diverge("final-state store: %s" % ",".join(sorted(storecmp.classes(asp))),
+                    ctx.diverge("final-state store: listings, lookups and adjacency disagree (%s)" % culprit(l, g),
                                 "the element tables are explained by an order of the edits but lookups/adjacency of the same store disagree with them",
-                                dict(sessions=r["sessions"], aspects=sorted(set(asp)), observed=real[g]))
+                                dict(sessions=r["sessions"], graph=g, aspects=sorted(set(asp)), classes=sorted(storecmp.classes(asp)),
+                                     recorded=l, observed=real[g]))
 
     # ---- evidence
     ncalls = sum(len(s) for l in lines for s in l["cl"])
@@ -491,7 +535,7 @@ def run(ctx):
     ctx.cov.update(evaluations=ncalls, traces_validated_against_impl=len(lines), distinct_nontrivial=overl,
                    histories=len(lines), histories_under_race_detector=len(raced), calls=ncalls,
                    accepted_real_time=len(lines) - len(rejected_rt), accepted_client_order_only=nonlin,
-                   race_signatures=sorted(races), canaries_rejected=len(canaries), model_states=mc.distinct,
+                   race_signatures=sorted(races), canaries_rejected=len(canaries), model_states=mc.distinct if mc else 0,
                    rule="histories = distinct session sets drawn by TLC (-simulate) from ServerConc.tla's full alphabet, 2-8 clients, <= 40 calls, "
                         "run once each with GOMAXPROCS in {1,2,4,8,16} and three jitter levels; non-trivial = histories in which at least two "
                         "calls of different clients that touch the same graph overlap in time and one of them is an acknowledged edit")
